@@ -45,7 +45,9 @@ def partial_fill(rng, schema, pop, p=0.3):
 
 def assign_states(rng, pop, mode):
     """states per instance; instances referenced by a surviving instance are not deleted (main stream)"""
-    if mode == "nodelete":
+    if mode == "complete":
+        st = ["completeSE"] * len(pop)       # incl. the instances whose required values are still missing
+    elif mode == "nodelete":
         st = [rng.choice(STATES[:3]) for _ in pop]
     elif mode == "uniform":
         st = [rng.choice(STATES[:4])] * len(pop)
@@ -78,14 +80,17 @@ def exact_equal(a, b):
     return G.render_inst(a) == G.render_inst(b)
 
 
-def run_case(ctx, h, m, schema, pop, holes, states, strict, workdir, tag):
-    """one history: read (exchange), set states, save, load, save, load, save.  returns (kind, what) or None"""
+def run_case(ctx, h, m, schema, pop, holes, states, strict, workdir, tag, reuse=False):
+    """one history: read (exchange), set states, save, load, save, load, save.  returns (kind, what) or None.
+    reuse=True: the STEPfile / InstMgr of the previous history are kept (no `reset`): one editing session that loads,
+    saves and reloads several times"""
     base = os.path.join(workdir, f"{tag}_base.p21")
     open(base, "w").write(G.render(schema.name, pop))
     w = [os.path.join(workdir, f"{tag}_w{k}.p21") for k in range(4)]
     x = [os.path.join(workdir, f"{tag}_x{k}.p21") for k in range(3)]
-    for side in (h, m):
-        side.cmd(f"reset {strict}")
+    if not reuse:
+        for side in (h, m):
+            side.cmd(f"reset {strict}")
     rh = kv(h.cmd(f"read {base}"))
     rm = kv(m.cmd("read " + " | ".join(G.encode_inst(i) for i in pop)))
     d0h, d0m = h.cmd("dump"), m.cmd("dump")
@@ -217,7 +222,7 @@ def run(ctx):
     quick = ctx.tier == "quick"
     n_schemas, n_pops, n_assign = (3, 8, 6) if quick else (10, 20, 24)
     schemas = [G.gen_schema(ctx.rng, f"ws{si}", n_entities=ctx.rng.randint(3, 6), cover_all_kinds=(si == 0),
-                            p_optional=0.4, with_complex=True) for si in range(n_schemas)]
+                            p_optional=0.4, with_complex=True, extra=(si % 2 == 1)) for si in range(n_schemas)]
     t0 = time.time()
     with cf.ThreadPoolExecutor(max_workers=8) as ex:
         built = list(ex.map(lambda s: build_schema(b, s, os.path.join(ctx.work, s.name), False), schemas))
@@ -226,18 +231,27 @@ def run(ctx):
     for s, (exe, _) in zip(schemas, built):
         wd = os.path.join(ctx.work, s.name)
         h, m = Harness(exe, b.env()), Model(model_exe, s)
-        t, n = time.time(), 0
+        t, n, corr = time.time(), 0, []
         try:
             check_schema_table(h, s)
             for pi_ in range(n_pops):
                 pop0 = G.gen_population(ctx.rng, s, ctx.rng.randint(1, 5 if quick else 8), p_null_optional=0.3)
                 pop, holes = partial_fill(ctx.rng, s, pop0, p=0.0 if pi_ % 3 == 0 else 0.35)
+                prev_case = None
                 for ai in range(n_assign):
-                    mode = ["any", "any", "nodelete", "uniform"][ai % 4]
+                    mode = ["any", "complete", "nodelete", "any", "uniform", "complete"][ai % 6]
                     states = assign_states(ctx.rng, pop, mode)
-                    strict = (pi_ + ai) % 2
-                    r = run_case(ctx, h, m, s, pop, holes, states, strict, wd, "c")
+                    reuse = ai % 3 != 0            # two of three histories continue in the session of the previous one
+                    strict = pi_ % 2 if True else 0    # the mode is fixed when the STEPfile is made: constant per session
+                    r = run_case(ctx, h, m, s, pop, holes, states, strict, wd, "c", reuse=(reuse and ai > 0))
+                    ctx.hist("session", "continued" if (reuse and ai > 0) else "fresh")
+                    if r and r[0] == "correspondence":
+                        # oracle satisfied, model and code differ: remember, keep searching for a failing input first
+                        corr.append((r, pop, holes, states, strict))
+                        r = None
                     n += 1
+                    if not r:
+                        prev_case = (pop, holes, states)
                     ctx.count(1, key=(s.name, pi_, ai))
                     ctx.hist("mode", "strict" if strict else "lenient")
                     for st in states:
@@ -246,11 +260,19 @@ def run(ctx):
                     ctx.hist("deleted instances", str(sum(1 for x in states if x == "deleteSE")))
                     if r:
                         kind, what = r
+                        # does it need the continued session?  (then the previous history is part of the failing input)
+                        previous = None
+                        if reuse and ai > 0 and prev_case is not None:
+                            fresh = run_case(ctx, h, m, s, pop, holes, states, strict, wd, "s")
+                            if not (fresh and fresh[0] == kind):
+                                previous = prev_case
                         # shrink: drop instances while the same kind of problem persists
                         cur = (pop, holes, states)
 
                         def fails(p_, h_, s_):
-                            rr = run_case(ctx, h, m, s, p_, h_, s_, strict, wd, "s")
+                            if previous is not None:
+                                run_case(ctx, h, m, s, previous[0], previous[1], previous[2], strict, wd, "sp")
+                            rr = run_case(ctx, h, m, s, p_, h_, s_, strict, wd, "s", reuse=previous is not None)
                             return rr is not None and rr[0] == kind
                         changed, budget = True, 40
                         while changed and budget > 0:
@@ -267,10 +289,13 @@ def run(ctx):
                                     cur, changed = (cand, hc, sc), True
                                     break
                         p_, h_, s_ = cur
-                        rr = run_case(ctx, h, m, s, p_, h_, s_, strict, wd, "s") or r
+                        rr = (None if previous is not None else run_case(ctx, h, m, s, p_, h_, s_, strict, wd, "s")) or r
                         rep = {"schema_express": s.express(), "schema_name": s.name, "strict": strict,
                                "file": G.render(s.name, p_), "states": s_,
                                "holes": [[i, a, b_, c] for i, a, b_, c in h_],
+                               "previous_history_in_same_session": None if previous is None else {
+                                   "file": G.render(s.name, previous[0]), "states": previous[2],
+                                   "holes": [[i, a, b_, c] for i, a, b_, c in previous[1]]},
                                "how": "exp2cxx the schema, link harness/h_p21.cc; reset <strict>; read FILE; setstate i <state>...; "
                                       "writework W0; readwork W0; dump; writework W1; readwork W1; writework W2"}
                         if kind == "property":
@@ -284,9 +309,15 @@ def run(ctx):
                         break
                 if stop:
                     break
+            if not stop and corr:
+                (kind, what), p_, h_, s_, strict = corr[0]
+                ctx.broken.append(("correspondence Session model vs STEPfile working-session read/write",
+                                   f"{what}; {len(corr)} disagreeing histories; first: {json.dumps(G.render(s.name, p_))[-900:]} states {s_} "
+                                   "(the oracle finds the property intact on every generated history)"))
+                stop = True
         finally:
             h.close(); m.close()
-        ctx.cov["correspondence"][s.name] = {"histories": n, "wall_s": round(time.time() - t, 1)}
+        ctx.cov["correspondence"][s.name] = {"histories": n, "disagreements": len(corr), "wall_s": round(time.time() - t, 1)}
         if stop:
             break
     ctx.sample({"schema": schemas[0].express()[:1000]})
@@ -312,7 +343,12 @@ def replay(ctx, path):
     h = Harness(exe, b.env())
     m = Model(ctx.model_exe("m_c16"), schema)
     try:
-        rr = run_case(ctx, h, m, schema, pop, [tuple(x) for x in r.get("holes", [])], r["states"], r["strict"], wd, "r")
+        pv = r.get("previous_history_in_same_session")
+        if pv:
+            ppop = [i for _, i in G.parse_p21(pv["file"])[2]]
+            run_case(ctx, h, m, schema, ppop, [tuple(x) for x in pv.get("holes", [])], pv["states"], r["strict"], wd, "rp")
+        rr = run_case(ctx, h, m, schema, pop, [tuple(x) for x in r.get("holes", [])], r["states"], r["strict"], wd, "r",
+                      reuse=bool(pv))
         print("result:", rr)
         if rr and rr[0] == "property":
             ctx.violation(d.get("key", "replay"), rr[1], r)
@@ -333,7 +369,12 @@ class _SchemaFromExpress:
             attrs = []
             for am in re.finditer(r"^\s+(\w+) : (OPTIONAL )?([^;]+);", body, re.M):
                 ty = am.group(3).strip()
-                if ty in G.SIMPLE:
+                dm = re.match(r"d([123])_(\w+)$", ty)
+                if dm and f"D{dm.group(1)}_{dm.group(2).upper()}" in G.DEPTH_KINDS:
+                    k, tgt = f"D{dm.group(1)}_{dm.group(2).upper()}", None
+                elif ty in ("sel_l", "sel_out", "sel_r"):
+                    k, tgt = {"sel_l": "SELECT_L", "sel_out": "SELECT_N", "sel_r": "SELECT_R"}[ty], None
+                elif ty in G.SIMPLE:
                     k, tgt = ty, None
                 elif ty in tmap:
                     k, tgt = tmap[ty], None
